@@ -7,12 +7,13 @@
 //    A/O r i v logical_and/or   + r i / - r i  increment/decrement   v r i k  async_visit (val = val*3 + k + 7*index)
 //    w r i k  async_visit with the (ptr, index, value, args) visitor signature (same function)
 //    B barrier   F for_all(index,value) dump   V for_all(value) dump   C copy-construct array #1 from #0   T n  select target
+//    Z len [fill]  resize(len[, fill]) — followed by NO barrier
 //  bag ops (items uint64_t):
 //    i r x  async_insert(x)   t r x d  async_insert(x,d)   v r d x,x,..|-  async_insert(vector,d)
 //    B barrier   D dump (local_for_all order + local_size)   R rebalance   L seed  local_shuffle   G seed  global_shuffle + barrier
 //    (during R and G every rank prints `snap <vector>` after each message it executes; G prints the ranks it drew as `gdest`)
 //    S swap(bag0,bag1)   T n  select target   g d  gather_to_vector(d)   a  gather_to_vector()   z size()   c clear()
-//  tbag ops:  i r x  insert (prints tag)   V r tag k  async_visit(tag, += k)   X r tag k  async_visit_if_exists
+//  tbag ops (two tagged bags):  T n  select   S  swap(tb0,tb1)   i r x  insert (prints tag)   V r tag k  async_visit(tag, += k)   X r tag k  async_visit_if_exists
 //    E r tag  async_erase   B barrier   D dump (tag:item:owner, sorted)   g tag,tag,..  all_gather   z size()
 #define HC_OWN_HOOK
 #include "hcommon.hpp"
@@ -89,6 +90,8 @@ static int run_array(ygm::comm& world, int argc, char** argv) {
       hc::out(o.str()); world.barrier(); continue;
     }
     if (c == 'z') { hc::out("size " + std::to_string(t.size())); continue; }
+    // explicit resize: NO barrier is added after it, the script issues updates right away
+    if (c == 'Z') { if (f.size() > 2) t.resize(U(f[1]), U(f[2])); else t.resize(U(f[1])); continue; }
     if ((int)U(f[1]) != me) continue;
     size_t i = U(f[2]); u64 x = f.size() > 3 ? U(f[3]) : 0;
     switch (c) {
@@ -162,12 +165,17 @@ static int run_bag(ygm::comm& world, int argc, char** argv) {
 
 static int run_tbag(ygm::comm& world, int argc, char** argv) {
   typedef ygm::container::tagged_bag<u64> tb_t;
-  tb_t tb(world);
+  tb_t tb0(world), tb1(world);
+  tb_t* tbs[2] = {&tb0, &tb1};
+  int cur = 0;
   int me = world.rank();
   for (auto& f : parse(argv[2])) {
     char c = f[0][0];
+    tb_t& tb = *tbs[cur];
     switch (c) {
       case 'B': world.barrier(); break;
+      case 'T': cur = (int)U(f[1]); break;
+      case 'S': tb0.swap(tb1); world.barrier(); break;
       case 'i': if ((int)U(f[1]) == me) { auto tag = tb.async_insert(U(f[2])); hc::out("tag " + std::to_string(tag)); } break;
       case 'V': if ((int)U(f[1]) == me) tb.async_visit(U(f[2]), [](const size_t& tag, u64& v, const u64& k) { v += k; }, U(f[3])); break;
       case 'X': if ((int)U(f[1]) == me) tb.async_visit_if_exists(U(f[2]), [](const size_t& tag, u64& v, const u64& k) { v += k; }, U(f[3])); break;
